@@ -40,6 +40,20 @@ def run(chk):
                        "the denotation computed from the abstract value (tools/gen/xmlgen.py denote); the real parser must "
                        "accept with empty rest and dump exactly those items (raw view); tie: the model's dump of the same text; "
                        "non-trivial = distinct rendering" % (ndocs, styles))
+    # ---- character data / attribute values after reference expansion (merged-text view), fixed documents with the
+    #      expected strings written out
+    exp_lines = [lib.req("query", t, "", "string(/r)", "string(/r/@t)") for t, _, _ in X.EXPANSION_DOCS]
+    exp_impl = lib.run_lines(lib.build_harness(), exp_lines, timeout=120, per_line_resume=True)
+    for (t, s1, s2), a in zip(X.EXPANSION_DOCS, exp_impl):
+        want = "s:%s | s:%s || doc=same" % (lib.enc(s1), lib.enc(s2))
+        chk.count(t, nontrivial=True)
+        if a != want:
+            chk.violation("expansion_%s" % lib.enc(t)[-50:],
+                          "property C01: character data / attribute value after reference expansion\ninput (percent-encoded): %s\n"
+                          "implementation (string(/r) | string(/r/@t)): %s\nexpected: %s\n"
+                          "replay: printf 'query\\t%s\\t\\tstring(%%2Fr)\\tstring(%%2Fr%%2F%%40t)\\n' | harness/target/debug/xmlrs-driver\n"
+                          % (lib.enc(t), a, want, lib.enc(t).replace("%", "%%")))
+            mfail.append((t, a, "ok", "ok"))
     narrow = [w for w in X.class_table_search(tabs) if w[3] and not w[2] and w[5] != "ok"]
     for key, cp, _, _, text, out in narrow:
         chk.violation("class_%s_%X" % (key, cp),
